@@ -9,6 +9,7 @@ import (
 	gms "github.com/dolthub/go-mysql-server"
 	"github.com/dolthub/go-mysql-server/sql"
 
+	"github.com/dolthub/dolt/go/libraries/doltcore/dbfactory"
 	"github.com/dolthub/dolt/go/libraries/doltcore/doltdb"
 	"github.com/dolthub/dolt/go/libraries/doltcore/env"
 	"github.com/dolthub/dolt/go/libraries/doltcore/sqle"
@@ -20,6 +21,9 @@ import (
 
 // Repo is a dolt repository (in memory or on disk) with an in-process SQL engine on top.
 type Repo struct {
+	fs     filesys.Filesys
+	home   string
+	url    string
 	DEnv   *env.DoltEnv
 	Engine *gms.Engine
 	Ctx    *sql.Context
@@ -72,11 +76,32 @@ func NewRepo(ctx context.Context, dir string) (r *Repo, err error) {
 	if err != nil {
 		return nil, err
 	}
-	r = &Repo{DEnv: dEnv, Engine: eng, Ctx: sctx, DDB: dEnv.DoltDB(ctx)}
+	r = &Repo{fs: fs, home: home, url: url, DEnv: dEnv, Engine: eng, Ctx: sctx, DDB: dEnv.DoltDB(ctx)}
 	if err = r.Exec("SET @@autocommit = 1"); err != nil {
 		return nil, err
 	}
 	return r, nil
+}
+
+// Reopen closes every local database of this process and opens the repository again from disk:
+// no value cache, node cache or table-file handle of the previous instance survives.  The SQL
+// engine of the old instance must not be used afterwards.
+func (r *Repo) Reopen(ctx context.Context) (*doltdb.DoltDB, error) {
+	if err := dbfactory.CloseAllLocalDatabases(); err != nil {
+		return nil, err
+	}
+	home := r.home
+	dEnv := env.Load(ctx, func() (string, error) { return home, nil }, r.fs, r.url, "verif")
+	if dEnv.DBLoadError != nil {
+		return nil, dEnv.DBLoadError
+	}
+	ddb := dEnv.DoltDB(ctx)
+	if ddb == nil {
+		return nil, fmt.Errorf("reopen: no database")
+	}
+	ddb.NodeStore().PurgeCaches()
+	r.DEnv, r.DDB, r.Engine, r.Ctx = dEnv, ddb, nil, nil
+	return ddb, nil
 }
 
 // Query runs one statement and returns all rows.
